@@ -30,7 +30,7 @@ def gen_lexicon(rng, k):
         d = rng.choice(['dup-entry', 'dup-sense', 'dup-synset', 'dup-form-id', 'dangling-synset', 'dangling-srel', 'dangling-yrel',
                         'empty-synset', 'rep-ili', 'spurious-ilidef', 'missing-ilidef', 'blank-def', 'blank-ex', 'rep-def',
                         'self-loop', 'redundant-rel', 'nonrecip', 'pos-clash', 'redundant-sense', 'redundant-entry', 'no-senses',
-                        'bad-reltype', 'lexid-clash', 'dangling-hypernym', 'no-pos'])
+                        'bad-reltype', 'lexid-clash', 'dangling-hypernym', 'no-pos', 'cross-kind-target', 'cross-kind-target'])
         if d == 'dup-entry' and len(ents) >= 2:
             ents[1]['id'] = ents[0]['id']
         elif d == 'dup-sense' and len(senses) >= 2:
@@ -93,6 +93,11 @@ def gen_lexicon(rng, k):
         elif d == 'bad-reltype' and senses:
             rng.choice(syns).setdefault('relations', []).append({'target': rng.choice(syns)['id'], 'relType': 'antonym', 'meta': None})
             rng.choice(senses).setdefault('relations', []).append({'target': rng.choice(syns)['id'], 'relType': 'hypernym', 'meta': None})
+        elif d == 'cross-kind-target' and senses:
+            # a synset relation pointing at a sense id (never a valid target), a sense relation pointing at an entry id
+            rng.choice(syns).setdefault('relations', []).append({'target': rng.choice(senses)['id'], 'relType': rng.choice(['similar', 'hypernym']), 'meta': None})
+            if ents and rng.random() < 0.5:
+                rng.choice(senses).setdefault('relations', []).append({'target': rng.choice(ents)['id'], 'relType': 'also', 'meta': None})
         elif d == 'lexid-clash':
             syns[0]['id'] = lx['id']
         elif d == 'no-pos':
